@@ -67,6 +67,7 @@ struct St {
     steps: BTreeMap<u64, u64>,    // scenario -> number of steps per attempt
     yields: BTreeMap<u64, u64>,   // scenario -> times a released step suspends again before it returns
     after_gated: bool,            // the after hook waits for a gate of its own (key 500000 + scenario)
+    classified_serial: std::collections::BTreeSet<u64>, // scenarios only the custom classifier calls Serial
     step_no: BTreeMap<u64, u64>,  // scenario -> steps entered in the current attempt
     parser_allowed: usize,
     parser_waker: Option<Waker>,
@@ -284,7 +285,10 @@ fn build_feature(item: &Value) -> gherkin::Feature {
         let mut tags = Vec::new();
         // `serial` is the effective classification; the tag sits on the scenario itself unless `serial_own` says
         // that it is inherited from the rule or the feature
-        if sc["serial_own"].as_bool().unwrap_or(sc["serial"].as_bool().unwrap_or(false)) {
+        if sc["serial_by_classifier"].as_bool().unwrap_or(false) {
+            // no tag at all: only the custom classifier (by scenario id) says Serial
+            ST.with(|x| x.borrow_mut().classified_serial.insert(sid));
+        } else if sc["serial_own"].as_bool().unwrap_or(sc["serial"].as_bool().unwrap_or(false)) {
             tags.push("serial".to_owned());
         }
         if let Some(r) = sc["retry"].as_array() {
@@ -411,7 +415,8 @@ pub fn run(case: &Value) -> Value {
     // `custom_which`: a user classifier (same classification as the default one: `@serial` on the scenario, its rule or
     // its feature) installed LAST in the builder chain — every builder method must carry the other settings over
     fn classify(f: &gherkin::Feature, r: Option<&gherkin::Rule>, s: &gherkin::Scenario) -> runner::basic::ScenarioType {
-        let serial = s.tags.iter().chain(r.iter().flat_map(|r| &r.tags)).chain(&f.tags).any(|t| t == "serial");
+        let serial = s.tags.iter().chain(r.iter().flat_map(|r| &r.tags)).chain(&f.tags).any(|t| t == "serial")
+            || ST.with(|x| x.borrow().classified_serial.contains(&(s.position.line as u64)));
         if serial { runner::basic::ScenarioType::Serial } else { runner::basic::ScenarioType::Concurrent }
     }
     let custom_which = case["custom_which"].as_bool().unwrap_or(false);
